@@ -3,7 +3,8 @@
 (a) ops.select_start_nodes, OP branch: `if (feasible < num_starts).any():` re-draws the starts of ALL instances with
     torch.multinomial(..., replacement=True) as soon as ONE instance has fewer than num_starts feasible nodes.
 (b) ops.sample_n_random_actions: `replace = n_valid_actions < n` with n_valid_actions = feasible.sum(1).min() over the BATCH.
-In both cases an instance that has at least k feasible start nodes gets repeated starts because another instance of the batch
+(c) sample_n_random_actions counts the valid actions over columns 1.. only, although column 0 can be drawn as well.
+In (a) and (b) an instance that has at least k feasible start nodes gets repeated starts because another instance of the batch
 has too few -- the property demands pairwise distinct starts per instance whenever k feasible starts exist.
 """
 import sys
@@ -46,7 +47,13 @@ for _ in range(200):
 alone = sum(len(set(select_start_nodes(td[0:1], _E(), k).view(k, 1).T[0].tolist())) < k for _ in range(200))
 print(f"(a) select_start_nodes[op]: instance 0 repeated starts in {rep}/200 draws next to a short instance; alone: {alone}/200")
 bad += rep > 0 and alone == 0
+# (c) the count of valid actions skips column 0 although column 0 can be drawn: for an env without a depot (TSP) and
+#     n = number of nodes the count is one short, replacement is switched on and starts repeat although n distinct ones exist
+full = TensorDict({"action_mask": torch.ones(1, n, dtype=torch.bool)}, batch_size=[1])
+rep_c = sum(len(set(sample_n_random_actions(full, n).tolist())) < n for _ in range(200))
+print(f"(c) sample_n_random_actions on an all-feasible mask of width {n}, n={n}: repeated starts in {rep_c}/200 draws")
+bad += rep_c > 0
 if bad:
-    print("VIOLATION: an instance with >= k feasible start nodes gets repeated forced starts because of a batch-mate")
+    print("VIOLATION: an instance with >= k feasible start nodes gets repeated forced starts")
     sys.exit(1)
 print("OK")
